@@ -204,3 +204,13 @@ def strparts(t):
         else:
             merged.append(p_)
     return tuple(merged)
+
+
+def certain_raise(t):
+    """A residual term that cannot be evaluated without an exception: a constant sequence subscripted by a constant position it does not have
+    (`"107"[3]`).  Returns a short description, or None."""
+    for st in subterms(t):
+        if isinstance(st, tuple) and len(st) == 3 and st[0] == "idx" and is_const(st[1]) and isinstance(st[1][1], (str, bytes, tuple, list)) and is_const(st[2]) \
+                and type(st[2][1]) is int and not -len(st[1][1]) <= st[2][1] < len(st[1][1]):
+            return f"IndexError: {st[1][1]!r}[{st[2][1]}]"
+    return None
